@@ -43,6 +43,8 @@ partial def feOf : SX → Option FE
     | .cond .. => pure (.delX e)
     | .val _ => pure (.delX e)
     | _ => none
+  | .node "pro" [a] => do pure (.protoOf (← feOf a))
+  | .node "rgx" [] => some .regex
   | .node "cnd" [t, a, b] => do pure (.cond (← feOf t) (← feOf a) (← feOf b))
   | .node "dfx" [o, .node p [], e] => do pure (.defFix (← feOf o) p (← feOf e))
   | .node "dro" [o, .node p [], e] => do pure (.defRO (← feOf o) p (← feOf e))
